@@ -1371,11 +1371,11 @@ fn mode_run(args: &[String]) -> i32 {
                                 // under test): it is exempt from the determinism comparison
                                 let exempt = v["lock_handovers"].as_u64().unwrap_or(0) > 0 || v2["lock_handovers"].as_u64().unwrap_or(0) > 0;
                                 if !exempt {
-                                    doubles.lock().unwrap().push((
-                                        i,
-                                        format!("{}/{}", v["log_hash"], v["key_digest"]),
-                                        format!("{}/{}", v2["log_hash"], v2["key_digest"]),
-                                    ))
+                                    // a preemption episode is compared by what its builds returned only: how many
+                                    // runs its adaptive sweep needs (and so how many hash keys are served) follows
+                                    // instruction counts, which alignment-dependent routines may shift by a few
+                                    let kd = |w: &Value| if i >= PREEMPT_BASE { "-".to_string() } else { w["key_digest"].to_string() };
+                                    doubles.lock().unwrap().push((i, format!("{}/{}", v["log_hash"], kd(&v)), format!("{}/{}", v2["log_hash"], kd(&v2))))
                                 }
                             }
                             Err(e) => errors.lock().unwrap().push(e),
